@@ -1,7 +1,7 @@
 (* C07, payload half: what the JSON normal form of a well-formed object keeps (every property that was set, normalised),
    used by Props/C07.v to read "carries the id and properties that were written" off C01's round-trip theorem. *)
 From AP.Model Require Import Prelude Bytes Vocab Pred Layout Dispatch Text Equal Coll JsonTables JsonDec Json JsonNorm KindRt.
-From AP.Proofs Require Import NlvP TabEqP ShapeP C01RoundP.
+From AP.Proofs Require Import NlvP TabEqP ShapeP C01LeafP C01RoundP.
 
 Section Payload.
   Variable lay : kind -> list fdecl.
@@ -36,6 +36,16 @@ Section Payload.
     - simpl in H. apply andb_prop in H. destruct H as [H _]. apply andb_prop in H. destruct H as [H _]. apply negb_true_iff in H. exact H.
     - change (b = true) in H. subst b. reflexivity.
     - simpl in H. apply andb_prop in H. destruct H as [H _]. apply negb_true_iff in H. exact H.
+    - (* source *)
+      cbn [wf_fval] in H. rewrite !andb_true_iff, negb_true_iff in H. destruct H as [[_ Hc] Hnz].
+      change (norm_fval lay (FSource mt c)) with (FSource mt (norm_nlv c)). cbn [fval_is_zero] in Hnz |- *.
+      destruct mt; [|reflexivity]. destruct c as [l|]; [|discriminate Hnz]. destruct l as [|[r0 v0] [|e2 l']]; reflexivity.
+    - (* endpoints *)
+      destruct e as [e|]; [|discriminate H]. rewrite norm_endpoints. reflexivity.
+    - (* public key *)
+      cbn [wf_fval] in H. rewrite !andb_true_iff, negb_true_iff in H. destruct H as [_ Hnz].
+      change (norm_fval lay (FPubKey id owner pem)) with (FPubKey id owner pem). cbn [fval_is_zero].
+      cbn [fval_is_zero] in Hnz. destruct id, owner, pem; try reflexivity; discriminate Hnz.
   Qed.
 
   Lemma getf_norm_fields g fs : getf g (norm_fields lay fs) = option_map (norm_fval lay) (getf g fs).
